@@ -972,6 +972,18 @@ def in_L16_region(case):
     return any(len(z["trips"]) >= 2 for z in case["zones"])
 
 
+FINDING_NO_DIR = "C19-battery-no-power-supply-dir"
+
+
+def in_no_dir_region(case, impl, spec):
+    """sensors_battery() with no /sys/class/power_supply at all: the statement (and Spec.battery) say None, the code as
+    found lets os.listdir's FileNotFoundError out. Region = exactly that: directory absent, an OSError came out, the
+    specification says `ok None`. Anything else on such a tree (another exception, a value) is NOT tolerated."""
+    return (case["fn"] == "battery" and not case.get("dir", True) and impl.get("kind") == "exc"
+            and impl.get("exc") == "OSError" and impl.get("cls") in ("FileNotFoundError", "NotADirectoryError")
+            and spec == {"kind": "ok", "value": None})
+
+
 def record(res, case, impl, model, spec, source):
     ok_s, ok_m = judge(case, impl, model, spec)
     feats = temps_features(case, impl) if case["fn"] == "temps" else generic_features(case, impl)
@@ -988,7 +1000,12 @@ def record(res, case, impl, model, spec, source):
     res.case(case, nontrivial=nontrivial, sample=sample)
     inp = {"case": case, "source": source, "hashseed": case.get("hashseed", 0)}
     if not ok_s:
-        res.disagree("spec", inp, impl, model, spec, note="%s: implementation differs from the specification" % case["fn"])
+        fid = None
+        if in_no_dir_region(case, impl, spec) and ok_m:
+            fid = FINDING_NO_DIR
+            res.known_seen[fid] = res.known_seen.get(fid, 0) + 1
+        res.disagree("spec", inp, impl, model, spec, note="%s: implementation differs from the specification" % case["fn"],
+                     finding=fid)
     elif not ok_m:
         res.disagree("model", inp, impl, model, spec, note="%s: implementation differs from the Lean model" % case["fn"])
     return ok_s, ok_m
